@@ -646,7 +646,10 @@ def replay_dump(out, dump_path, sig_fn, nontrivial_fn, extra_check=None, verbose
         d = common.scratch_dir('xdv-failmod')
         _JOB['failmods'] = []
         for name, body in (('xdv_fail_zde', 'raise ZeroDivisionError("import boom")\n'), ('xdv_fail_imp', 'import xdv_no_such_module_zz\n'),
-                           ('xdv_fail_rt', 'import sys\nsys.path.append("/xdv/leftover")\nraise RuntimeError("late")\n')):
+                           ('xdv_fail_rt', 'import sys\nsys.path.append("/xdv/leftover")\nraise RuntimeError("late")\n'),
+                           # the module moves the temporary search-path entry before it fails
+                           ('xdv_fail_ins', 'import sys\nsys.path.insert(0, "/xdv/leftover")\nraise RuntimeError("late")\n'),
+                           ('xdv_fail_ins2', 'import sys\nsys.path.insert(0, "/xdv/leftover")\nimport xdv_no_such_module_qq\n')):
             fp = os.path.join(d, name + '.py')
             with open(fp, 'w') as f:
                 f.write(body)
